@@ -382,6 +382,19 @@ func RunParent(ch *Check, tier string, seed int64) int {
 	if violations > 0 {
 		return 1
 	}
+	// vacuity guard: an oracle that refuses (nearly) every generated program decides nothing.  The
+	// share of reference runs that completed depends on the harness alone, not on the tree under test.
+	if runs := total.Stats["ref_runs"]; runs >= 100 {
+		floor := ch.MinRefCompleted
+		if floor == 0 {
+			floor = 0.10
+		}
+		if share := float64(total.Stats["ref_completed"]) / float64(runs); share < floor {
+			fmt.Printf("HARNESS-ERROR property=%s vacuous: only %.1f%% of %d reference runs completed without a fault (floor %.0f%%) - the generator or its prelude is broken, nothing was decided\n",
+				ch.ID, 100*share, runs, 100*floor)
+			return 2
+		}
+	}
 	return 0
 }
 
